@@ -16,7 +16,7 @@ pub const SPEC: FamilySpec = FamilySpec {
     property: "C06",
     cmd: "c06",
     profile: Profile::Abort,
-    fams: &[Fam::Abort, Fam::Panic],
+    fams: &[Fam::Abort, Fam::Alive, Fam::Panic],
     stall_is_violation: true,
     runs_quick: 12_000,
     runs_thorough: 600_000,
